@@ -1,12 +1,12 @@
 package main
 
 import (
-	"math/big"
 	"fmt"
 	"go/ast"
 	"go/parser"
 	"go/token"
 	"go/types"
+	"math/big"
 	"sort"
 	"strconv"
 	"strings"
